@@ -60,7 +60,7 @@ def LInv (cf : Config) (upds : List (Nat × String × Nat)) (s : Store) : Op →
   | .upd n _ _ _ _, .uGet1 r => RecOK upds s n r
   | .upd n _ _ _ _, .uSet r => RecOK upds s n r
   | .look _, .lIdx => True
-  | .look _, .lData _ => True
+  | .look h, .lData n => ∃ o, s.born n = some o ∧ o.dom = extractDomain h
   | .look _, .lCloud => True
   | _, _ => False
 
@@ -137,6 +137,8 @@ theorem LInv.frame {cf upds s s'} (m : Mono s s') (o : Op) (pc : PC)
     · exact h.mono m
     · exact h.mono m
   | look host =>
-    cases pc <;> simp only [LInv] at h ⊢ <;> trivial
+    cases pc <;> simp only [LInv] at h ⊢ <;> try trivial
+    obtain ⟨o, ho, hd⟩ := h
+    exact ⟨o, m.born _ _ ho, hd⟩
 
 end Tunnox.C19
